@@ -946,7 +946,7 @@ def file_failure_class(desc, rows, r, fmt, multi, parser, insts, T, X):
                 # column order inside one row does not matter for these rows (C07-3), only list order
                 cells = dict(sorted(cells.items(), key=lambda kv: [int(c) if c.isdigit() else 0 for c in kv[0].split(".")]))
             else:
-                cells = {h: cells[h] for h in order}
+                cells = {h: cells[h] for h in order if h in cells}
             p = impl_parse(parser, list(cells.items()))
             out.append(p[1] if p[0] == "ok" else None)
         return out
